@@ -29,7 +29,7 @@ ASSUMPTIONS = [
 ]
 REQUIRED_CLASSES = ["nontrivial", "optional_zero", "optional_absent", "optional_nonzero", "pause>750",
                     "pause<=0", "clamped", "lm_suppressed", "lm_sent", "cross_layer", "no_port", "sequence",
-                    "sequence_repeats_a_call"]
+                    "sequence_repeats_a_call", "acknowledgements_delayed"]
 QUICK_SHARDS = 4
 
 ebb_motion = sut.load("ebb_motion")
@@ -163,17 +163,20 @@ def texts(writes):
     return out
 
 
-def run_legacy(name, args):
-    board = Board("legacy", version="2.8.1", lenient=True)
+def run_legacy(name, args, delay=()):
+    # delay: empty reads (timeouts) the port delivers before successive reply lines - the device still
+    # acknowledges every command, just not at once
+    board = Board("legacy", version="2.8.1", lenient=True, empties=list(delay))
     port = FakePort(board)
     port.begin_call()
     call_sut(getattr(ebb_motion, name), port, *args)
     return texts(port.writes), port
 
 
-def run_ebb3(name, args):
+def run_ebb3(name, args, delay=()):
     board = Board("ebb3", lenient=True)
     obj, port, board = em.new_connected(board)
+    board.empties = list(delay)
     port.begin_call()
     call_sut(getattr(obj, name), *args)
     return texts(port.written_in_call()), obj
@@ -257,8 +260,13 @@ def body(ctx, case):
     ctx.record((layer, name, args), classes, nontrivial)
 
     what = "%s.%s%r" % ("ebb_motion" if layer == "legacy" else "EBBMotionWrap", name, tuple(args))
+    delay = case.get("delay", ())
+    if delay:
+        classes.add("acknowledgements_delayed")
+        ctx.classes["acknowledgements_delayed"] += 1
+        what += " (acknowledgements delayed by %r empty reads)" % (list(delay),)
     if layer == "legacy":
-        got, _port = run_legacy(name, args)
+        got, _port = run_legacy(name, args, delay)
         check_exact(ctx, case, got, expected, what)
         if name in ("doTimedPause",):
             durations = [int(g.split(",")[1]) for g in got]
@@ -280,9 +288,11 @@ def body(ctx, case):
                          % (what, legacy_cmp, other, tuple(amap(*args)), got3), case)
             ctx.classes["cross_layer"] += 1
     else:
-        got, obj = run_ebb3(name, args)
+        got, obj = run_ebb3(name, args, delay)
         check_exact(ctx, case, got, expected, what)
-        if obj.err is not None:
+        # with delayed acknowledgements only the emitted text is this property's business (how long a request waits
+        # is C05's; query_statusbyte reads once by design)
+        if obj.err is not None and not delay:
             ctx.fail("%s recorded an error against an acknowledging device: %r" % (what, obj.err), case)
 
 
@@ -434,7 +444,10 @@ def cases(draw):
     table = LEGACY if layer == "legacy" else EBB3
     name = draw(st.sampled_from(sorted(table)))
     args = [draw(s) for s in table[name][0]]
-    return {"layer": layer, "helper": name, "args": args}
+    case = {"layer": layer, "helper": name, "args": args}
+    if draw(st.integers(0, 3)) == 0:
+        case["delay"] = draw(st.lists(st.sampled_from([0, 1, 1, 2, 5]), min_size=1, max_size=6))
+    return case
 
 
 def grid():
@@ -462,6 +475,14 @@ def grid():
         for name, (strats, _f) in sorted(table.items()):
             if not strats:
                 yield {"layer": layer, "helper": name, "args": []}
+                yield {"layer": layer, "helper": name, "args": [], "delay": [1, 2, 1, 1, 1]}
+    for helper, layer, args in (("doXYMove", "legacy", [10, -5, 100]), ("xy_move", "ebb3", [10, -5, 100]),
+                                ("doTimedPause", "legacy", [1600]), ("timed_pause", "ebb3", [1600]),
+                                ("sendPenDown", "legacy", [100, 2]), ("pen_lower", "ebb3", [100, 2]),
+                                ("PBOutConfig", "legacy", [3, 1]), ("dio_b_config", "ebb3", [3, 1, 0]),
+                                ("doAbsMove", "legacy", [1000, 0, 5]), ("abs_move", "ebb3", [1000, 0, 5])):
+        for delay in ([1], [3], [0, 1], [2, 2, 2]):
+            yield {"layer": layer, "helper": helper, "args": args, "delay": delay}
 
 
 def motors_grid():
